@@ -73,6 +73,10 @@ func (q *UnsafeQuery) nextTableOrArchetype() bool {
 }
 
 func (q *UnsafeQuery) nextArchetype() bool {
+	if q.cursor.table < -1 {
+		// Keep panicking on further calls of Next after the iteration finished or the query was closed.
+		panic("query iteration already finished. Create a new query to iterate again")
+	}
 	q.tables = nil
 	maxArchIndex := int32(len(q.world.storage.archetypes) - 1)
 	for q.cursor.archetype < maxArchIndex {
